@@ -17,7 +17,7 @@ OUTSIDE = ('task-granularity interleaving only: a worker finishing a task *while
 _POOL = {
     'engine': 'cbmc', 'shims': ['moodycamel', '../harness/C04/shim'],
     'repo_sources': ['dispenso/detail/per_thread_info.cpp', 'dispenso/task_set.cpp'],
-    'spin_loops': True, 'timeout': 400, 'must_reach': 'all',
+    'spin_loops': True, 'checks': ['--no-standard-checks', '--div-by-zero-check', '--bounds-check'], 'timeout': int(__import__('os').environ.get('DEV_TIMEOUT', 1500)), 'must_reach': 'all',
 }
 _OPN = {0: 'schedule(f)', 1: 'schedule(f, ForceQueuingTag)', 2: 'scheduleBulk(n, gen)', 3: 'scheduleBulk(n, gen, ForceQueuingTag)'}
 _FINN = {0: 'wait() then destructor', 1: 'tryWait(k<=%d), wait(), destructor', 2: 'destructor only'}
@@ -43,20 +43,24 @@ def bar(setk, pool, cost=1, fin=0, nsub=2, bulk=2, mask=15, wsteps=1, nest=0, ca
             (_FINN[fin] % tw) if fin == 1 else _FINN[fin], maxt))
     d = dict(_POOL)
     loops = maxt + 1
+    outer = 3 if nest else 2
     d.update({'name': name, 'src': 'barrier.cpp', 'defs': defs, 'bounds': b, 'tiers': list(tiers),
               'unwind': max(bulk, wsteps, 2) + 1,
-              # harness / pool-model loops with constant trip counts; wait()/tryWait(): the drain loops must be able to run
-              # every queued task (+1 nested) and see the empty queue
+              # harness / pool-model loops with constant trip counts
               'unwind_fn': {'_ZN8dispenso10ThreadPool11popMatchingEjjb': loops, '_ZN8dispenso10ThreadPoolC2Emm': loops,
                             '_ZL12queuedInPoolRN8dispenso10ThreadPoolE': loops, '_ZL10unfinishedv': loops,
-                            '_ZN8dispenso17ConcurrentTaskSet4waitEv': loops + 1, '_ZN8dispenso7TaskSet4waitEv': loops + 1,
                             '_ZN8dispenso17ConcurrentTaskSet7tryWaitEm': tw + 2, '_ZN8dispenso7TaskSet7tryWaitEm': tw + 2,
-                            '_ZN8dispenso10ThreadPoolD2Ev': 2}})
+                            '_ZN8dispenso10ThreadPoolD2Ev': 2},
+              # wait(): the drain loops must be able to run every queued task and see the empty queue (maxt + 1); the outer
+              # loop (and the pseudo-loop "central queue empty -> rings") runs once, twice when a ring task queues a nested task
+              'unwindset': dict([('_ZN8dispenso17ConcurrentTaskSet4waitEv.%d' % i, v) for i, v in enumerate([outer, loops, loops, outer])] +
+                                [('_ZN8dispenso7TaskSet4waitEv.%d' % i, v) for i, v in enumerate([outer, loops, outer, loops, loops, outer])])})
     return d
 
 
 _Q = ('quick', 'thorough')
 INSTANCES = [
     bar(1, 1, cost=1, fin=0, nsub=1, mask=3, tiers=_Q, tag='_dev'),
-    bar(1, 1, cost=1, fin=0, tiers=_Q),
+    bar(1, 1, cost=1, fin=0, mask=5, tiers=_Q),
+    bar(0, 1, fin=0, nsub=1, mask=3, tiers=_Q, tag='_dev'),
 ]
